@@ -23,7 +23,19 @@ def main() -> int:
     common.setup_repo_path()
     mod = importlib.import_module(f"props.{a.pid.lower()}")
     chk = common.Check(a.pid, a.tier, seed)
-    return mod.run(chk, replay=a.replay)
+    try:
+        return mod.run(chk, replay=a.replay)
+    except Exception:  # noqa: BLE001
+        # fail closed: a harness that cannot complete on this tree has not shown the property (the implementation behaved in a
+        # way the instrumentation does not understand); the traceback is the replay
+        import traceback
+
+        tb = traceback.format_exc()
+        sys.stderr.write(tb)
+        chk.violation({"kind": "correspondence", "name": "harness-exception"},
+                      {"failed": "correspondence:harness (the check could not complete on this tree)", "traceback": tb}, no_input=True)
+        return chk.finish({"evaluations": 0, "distinct_nontrivial": 0, "rule": "the check aborted with an exception", "samples": [tb[-400:]],
+                           "traces_validated_against_impl": 0})
 
 
 if __name__ == "__main__":
